@@ -68,8 +68,12 @@ def bip32Op : List String → Option String
     pure (rX (deriveB E (← xkeyOf [v, d, fp, i, cc, k]) (← pathOf path) (← optBytes forced)))
   | "bip32.fold" :: mac :: v :: d :: fp :: i :: cc :: k :: [path] => do
     let E := envOf (← macOf mac)
-    pure (match deriveFold E (← xkeyOf [v, d, fp, i, cc, k]) (← pathOf path) with
-          | .ok x => "ok " ++ renderX x | .error _ => "err any")
+    let x ← xkeyOf [v, d, fp, i, cc, k]
+    let p ← pathOf path
+    -- where T1 says the fold and `_derive` refuse alike, the refusal is compared by name
+    let exact := (x.isPrivate || p.all (· < HARDENED)) && x.depth + p.length ≤ MAX_DEPTH
+    pure (match deriveFold E x p with
+          | .ok y => "ok " ++ renderX y | .error e => if exact then "err " ++ e.name else "err any")
   | "bip32.neuter" :: x => do pure (rX (xpubFromXprv (envOf hmacSha512) (← xkeyOf x)))
   | "bip32.fp" :: x => do pure (rB (fingerprint (envOf hmacSha512) (← xkeyOf x)))
   | "bip32.valid" :: x => do
@@ -84,6 +88,9 @@ def bip32Op : List String → Option String
     pure (match deriveFromAccountRange (envOf hmacSha512) (← xkeyOf [v, d, fp, i, cc, k]) (← branch.toNat?)
       (← pathOf addrs) (← boolOf only01) (← mx.toNat?) with
       | .ok xs => "ok " ++ " | ".intercalate (xs.map renderX) | .error e => "err " ++ e.name)
+  | ["bip32.tweaks", key, cc, path] => do
+    pure (match pubTweaks (envOf hmacSha512) (← fromHex? key) (← fromHex? cc) (← pathOf path) with
+          | .ok ts => "ok " ++ (if ts.isEmpty then "_" else ",".intercalate (ts.map toHex)) | .error e => "err " ++ e.name)
   | "bip85.entropy" :: v :: d :: fp :: i :: cc :: k :: [path] => do
     pure (rB (bip85Entropy (envOf hmacSha512) (← xkeyOf [v, d, fp, i, cc, k]) (← pathOf path)))
   | ["ver.pub", v] => do
